@@ -15,8 +15,8 @@ Definition zstd_progress (rd : nat -> Z -> bytes -> Z) : Prop :=
 
 (* if do.decompress(inbuf, n) with n >= 1 leaves unconsumed input, it returned at least one
    byte of the as yet undelivered output *)
-Definition gz_progress (dec : nat -> Z -> bytes -> Z * bool) : Prop :=
-  forall i n rest, 1 <= n -> snd (dec i n rest) = true -> 1 <= fst (dec i n rest) /\ rest <> [].
+Definition gz_progress (dec : nat -> Z -> bytes -> Z * bool * bool) : Prop :=
+  forall i n rest, 1 <= n -> snd (fst (dec i n rest)) = true -> 1 <= fst (fst (dec i n rest)) /\ rest <> [].
 
 (* f is a zstd frame of d: the streaming decoder yields d; when the header stores a size it
    is the true size and the one-shot decoder returns d *)
@@ -73,12 +73,13 @@ Proof.
 Qed.
 
 Section Std.
-(* whether the source carries the `if not do.eof: raise DecompressionError` statements *)
-Variable b : bool.
+(* the values of the source the proofs do not depend on, except that the read chunk is >= 1 *)
+Variable K : knobs.
+Hypothesis HK : 1 <= k_chunk K.
 
 (* ---------- _zstd_content_size ---------- *)
 Lemma content_size_std : forall raw,
-  zstd_content_size (std_params b) raw =
+  zstd_content_size (std_params K) raw =
     if (raw =? -1) || (raw =? 18446744073709551615) then None else Some raw.
 Proof.
   intros raw. unfold zstd_content_size. cbn [p_sentinels std_params existsb].
@@ -86,7 +87,7 @@ Proof.
 Qed.
 
 Lemma content_size_none_iff : forall raw,
-  zstd_content_size (std_params b) raw = None <-> raw = -1 \/ raw = 18446744073709551615.
+  zstd_content_size (std_params K) raw = None <-> raw = -1 \/ raw = 18446744073709551615.
 Proof.
   intros raw. rewrite content_size_std.
   destruct (raw =? -1) eqn:E1; destruct (raw =? 18446744073709551615) eqn:E2; cbn [orb];
@@ -94,21 +95,21 @@ Proof.
 Qed.
 
 Lemma content_size_some : forall raw,
-  raw <> -1 -> raw <> 18446744073709551615 -> zstd_content_size (std_params b) raw = Some raw.
+  raw <> -1 -> raw <> 18446744073709551615 -> zstd_content_size (std_params K) raw = Some raw.
 Proof.
   intros raw H1 H2. rewrite content_size_std.
   destruct (raw =? -1) eqn:E1; [lia|]. destruct (raw =? 18446744073709551615) eqn:E2; [lia|]. reflexivity.
 Qed.
 
-Lemma content_size_some_inv : forall raw s, zstd_content_size (std_params b) raw = Some s -> s = raw.
+Lemma content_size_some_inv : forall raw s, zstd_content_size (std_params K) raw = Some s -> s = raw.
 Proof.
   intros raw s. unfold zstd_content_size. destruct (existsb _ _); intro H; [discriminate|].
   injection H as H. symmetry. exact H.
 Qed.
 
 (* ---------- the zstd streaming loop ---------- *)
-Lemma std_zreq_ge1 : forall cap total, total <= cap -> 1 <= p_zreq (std_params b) cap total.
-Proof. intros cap total H. cbn [p_zreq std_params]. unfold DECOMPRESS_CHUNK_BYTES. lia. Qed.
+Lemma std_zreq_ge1 : forall cap total, total <= cap -> 1 <= p_zreq (std_params K) cap total.
+Proof. intros cap total H. cbn [p_zreq std_params]. lia. Qed.
 
 Lemma reader_take_pos : forall rd i n x r,
   zstd_progress rd -> 1 <= n -> exists m', reader_take rd i n (x :: r) = S m'.
@@ -125,7 +126,7 @@ Lemma zstd_loop_correct : forall rd cap,
     (length rest < fuel)%nat ->
     total = len (concat (rev acc)) ->
     total <= cap ->
-    fst (zstd_loop (std_params b) rd cap fuel i total acc rest reqs) =
+    fst (zstd_loop (std_params K) rd cap fuel i total acc rest reqs) =
       expected (concat (rev acc) ++ rest) cap.
 Proof.
   intros rd cap Hp fuel. induction fuel as [|fuel IH]; intros i total acc rest reqs Hf Ht Hc.
@@ -135,7 +136,7 @@ Proof.
     destruct rest as [|x r].
     + rewrite firstn_nil. cbn [fst]. rewrite app_nil_r. unfold expected.
       destruct (len (concat (rev acc)) <=? cap) eqn:E; [reflexivity|lia].
-    + destruct (reader_take_pos rd i (p_zreq (std_params b) cap total) x r Hp Hn) as [m' Hm].
+    + destruct (reader_take_pos rd i (p_zreq (std_params K) cap total) x r Hp Hn) as [m' Hm].
       rewrite Hm. cbn [firstn].
       set (chunk := x :: firstn m' r).
       assert (Hchunk : firstn (S m') (x :: r) = chunk) by reflexivity.
@@ -172,7 +173,7 @@ Proof.
 Qed.
 
 (* every size asked of the reader lies in [1, min(chunk, cap+1)] *)
-Definition req_ok (cap n : Z) : Prop := 1 <= n <= Z.min DECOMPRESS_CHUNK_BYTES (cap + 1).
+Definition req_ok (cap n : Z) : Prop := 1 <= n <= Z.min (k_chunk K) (cap + 1).
 
 Lemma Forall_rev_cons : forall (Q : Z -> Prop) n reqs, Q n -> Forall Q reqs -> Forall Q (rev (n :: reqs)).
 Proof.
@@ -182,14 +183,14 @@ Qed.
 Lemma zstd_loop_requests : forall rd cap fuel i total acc rest reqs,
   0 <= total <= cap ->
   Forall (req_ok cap) reqs ->
-  Forall (req_ok cap) (snd (zstd_loop (std_params b) rd cap fuel i total acc rest reqs)).
+  Forall (req_ok cap) (snd (zstd_loop (std_params K) rd cap fuel i total acc rest reqs)).
 Proof.
   intros rd cap fuel. induction fuel as [|fuel IH]; intros i total acc rest reqs Ht Hr.
   - cbn [zstd_loop snd]. apply Forall_rev. exact Hr.
   - cbn [zstd_loop].
-    assert (Hn : req_ok cap (p_zreq (std_params b) cap total)).
-    { unfold req_ok. cbn [p_zreq std_params]. unfold DECOMPRESS_CHUNK_BYTES. lia. }
-    destruct (firstn (reader_take rd i (p_zreq (std_params b) cap total) rest) rest) as [|x c] eqn:Ec.
+    assert (Hn : req_ok cap (p_zreq (std_params K) cap total)).
+    { unfold req_ok. cbn [p_zreq std_params]. lia. }
+    destruct (firstn (reader_take rd i (p_zreq (std_params K) cap total) rest) rest) as [|x c] eqn:Ec.
     + cbn [snd]. apply Forall_rev_cons; assumption.
     + cbn [p_zover std_params].
       destruct (total + len (x :: c) >? cap) eqn:Eo.
@@ -201,7 +202,7 @@ Qed.
 (* ---------- the gzip loop ---------- *)
 Lemma gz_finish_correct : forall cap total acc rest reqs,
   total = len (concat (rev acc)) -> total <= cap ->
-  fst (gz_finish (std_params b) true cap total acc rest reqs) = expected (concat (rev acc) ++ rest) cap.
+  fst (gz_finish (std_params K) true cap total acc rest reqs) = expected (concat (rev acc) ++ rest) cap.
 Proof.
   intros cap total acc rest reqs Ht Hc. unfold gz_finish, expected.
   destruct rest as [|x r].
@@ -219,7 +220,7 @@ Lemma gz_loop_correct : forall dec cap,
     (length rest + 1 < fuel)%nat ->
     total = len (concat (rev acc)) ->
     total <= cap ->
-    fst (gz_loop (std_params b) dec true cap fuel i total acc rest rem tl reqs) =
+    fst (gz_loop (std_params K) dec true cap fuel i total acc rest rem tl reqs) =
       expected (concat (rev acc) ++ rest) cap.
 Proof.
   intros dec cap Hp fuel. induction fuel as [|fuel IH]; intros i total acc rest rem tl reqs Hf Ht Hc.
@@ -227,10 +228,10 @@ Proof.
   - cbn [gz_loop].
     destruct (negb (rem || tl)).
     + apply gz_finish_correct; assumption.
-    + assert (Hn : 1 <= p_greq (std_params b) cap total)
-        by (cbn [p_greq std_params]; unfold DECOMPRESS_CHUNK_BYTES; lia).
-      pose proof (Hp i (p_greq (std_params b) cap total) rest Hn) as Hpi.
-      destruct (dec i (p_greq (std_params b) cap total) rest) as [k tail'].
+    + assert (Hn : 1 <= p_greq (std_params K) cap total)
+        by (cbn [p_greq std_params]; lia).
+      pose proof (Hp i (p_greq (std_params K) cap total) rest Hn) as Hpi.
+      destruct (dec i (p_greq (std_params K) cap total) rest) as [[k tail'] eofn].
       cbn [fst snd] in Hpi.
       destruct (firstn (Z.to_nat k) rest) as [|x c] eqn:Ec.
       * destruct tail'.
@@ -238,7 +239,7 @@ Proof.
            destruct rest as [|y r]; [apply Hne; reflexivity|].
            assert (Hm : exists m', Z.to_nat k = S m') by (exists (Z.to_nat (k - 1)); lia).
            destruct Hm as [m' Hm]. rewrite Hm in Ec. cbn [firstn] in Ec. discriminate.
-        -- cbn [negb]. rewrite (firstn_nil_skipn _ _ Ec).
+        -- cbn [negb]. rewrite orb_true_r. rewrite (firstn_nil_skipn _ _ Ec).
            apply gz_finish_correct; assumption.
       * set (chunk := x :: c) in *.
         assert (Hsplit : chunk ++ skipn (Z.to_nat k) rest = rest)
@@ -251,52 +252,59 @@ Proof.
         destruct (total + len chunk >? cap) eqn:Eo.
         -- cbn [fst]. unfold expected.
            destruct (len (concat (rev acc) ++ rest) <=? cap) eqn:E; [lia|reflexivity].
-        -- rewrite IH.
-           ++ rewrite concat_rev_cons, <- app_assoc, Hsplit. reflexivity.
-           ++ pose proof (skipn_shorter _ _ _ _ Ec). lia.
-           ++ rewrite concat_rev_cons, len_app. apply (f_equal (fun z => z + len chunk)). exact Ht.
-           ++ lia.
+        -- assert (Ht' : total + len chunk = len (concat (rev (chunk :: acc)))).
+           { rewrite concat_rev_cons, len_app. apply (f_equal (fun z => z + len chunk)). exact Ht. }
+           assert (Hc' : total + len chunk <= cap) by lia.
+           assert (Hgoal : expected (concat (rev (chunk :: acc)) ++ skipn (Z.to_nat k) rest) cap =
+                           expected (concat (rev acc) ++ rest) cap).
+           { rewrite concat_rev_cons, <- app_assoc, Hsplit. reflexivity. }
+           destruct (p_gz_eof_break (std_params K) && eofn).
+           ++ rewrite gz_finish_correct; assumption.
+           ++ rewrite IH; [exact Hgoal| |exact Ht'|exact Hc'].
+              pose proof (skipn_shorter _ _ _ _ Ec). lia.
 Qed.
 
 Lemma gz_finish_requests : forall eof cap total acc rest reqs,
-  Forall (req_ok cap) reqs -> Forall (req_ok cap) (snd (gz_finish (std_params b) eof cap total acc rest reqs)).
+  Forall (req_ok cap) reqs -> Forall (req_ok cap) (snd (gz_finish (std_params K) eof cap total acc rest reqs)).
 Proof.
   intros eof cap total acc rest reqs Hr. unfold gz_finish.
   destruct rest as [|x r]; [cbn [snd]; apply Forall_rev; exact Hr|].
-  destruct (p_gover_tail (std_params b) cap (total + len (x :: r))); cbn [snd]; apply Forall_rev; exact Hr.
+  destruct (p_gover_tail (std_params K) cap (total + len (x :: r))); cbn [snd]; apply Forall_rev; exact Hr.
 Qed.
 
 Lemma gz_loop_requests : forall dec eof cap fuel i total acc rest rem tl reqs,
   0 <= total <= cap ->
   Forall (req_ok cap) reqs ->
-  Forall (req_ok cap) (snd (gz_loop (std_params b) dec eof cap fuel i total acc rest rem tl reqs)).
+  Forall (req_ok cap) (snd (gz_loop (std_params K) dec eof cap fuel i total acc rest rem tl reqs)).
 Proof.
   intros dec eof cap fuel. induction fuel as [|fuel IH]; intros i total acc rest rem tl reqs Ht Hr.
   - cbn [gz_loop snd]. apply Forall_rev. exact Hr.
   - cbn [gz_loop].
     destruct (negb (rem || tl)); [apply gz_finish_requests; exact Hr|].
-    assert (Hn : req_ok cap (p_greq (std_params b) cap total)).
-    { unfold req_ok. cbn [p_greq std_params]. unfold DECOMPRESS_CHUNK_BYTES. lia. }
-    destruct (dec i (p_greq (std_params b) cap total) rest) as [k tail'].
+    assert (Hn : req_ok cap (p_greq (std_params K) cap total)).
+    { unfold req_ok. cbn [p_greq std_params]. lia. }
+    destruct (dec i (p_greq (std_params K) cap total) rest) as [[k tail'] eofn].
     destruct (firstn (Z.to_nat k) rest) as [|x c] eqn:Ec.
-    + destruct (negb tail').
+    + destruct (p_gz_eof_break (std_params K) && eofn || negb tail').
       * apply gz_finish_requests. constructor; assumption.
       * apply IH; [exact Ht|constructor; assumption].
     + cbn [p_gover std_params].
       destruct (total + len (x :: c) >? cap) eqn:Eo.
       * cbn [snd]. apply Forall_rev_cons; assumption.
-      * apply IH; [|constructor; assumption].
-        pose proof (len_cons_pos x c). lia.
+      * destruct (p_gz_eof_break (std_params K) && eofn).
+        -- apply gz_finish_requests. constructor; assumption.
+        -- apply IH; [|constructor; assumption].
+           pose proof (len_cons_pos x c). lia.
 Qed.
 
 (* ---------- whole decoders on frames ---------- *)
 Lemma zstd_frame_cap : forall E f d cap,
-  zstd_frame_of (std_params b) E f d -> 0 <= cap ->
-  decompress (std_params b) E Zstd f (Some cap) = expected d cap.
+  zstd_frame_of (std_params K) E f d -> 0 <= cap ->
+  decompress (std_params K) E Zstd f (Some cap) = expected d cap.
 Proof.
   intros E f d cap [Hs [Hp Hd]] Hc.
   unfold decompress, decompress_tr, decompress_zstd.
-  destruct (zstd_content_size (std_params b) (zstd_declared E f)) as [s|] eqn:Ecs.
+  destruct (zstd_content_size (std_params K) (zstd_declared E f)) as [s|] eqn:Ecs.
   - destruct (Hd s eq_refl) as [Hlen Hone]. cbn [p_refuse std_params]. unfold expected.
     destruct (s >? cap) eqn:Eg.
     + cbn [fst]. destruct (len d <=? cap) eqn:El; [lia|reflexivity].
@@ -306,18 +314,18 @@ Proof.
 Qed.
 
 Lemma zstd_frame_nocap : forall E f d,
-  zstd_frame_of (std_params b) E f d -> decompress (std_params b) E Zstd f None = Ok d.
+  zstd_frame_of (std_params K) E f d -> decompress (std_params K) E Zstd f None = Ok d.
 Proof.
   intros E f d [Hs [Hp Hd]].
   unfold decompress, decompress_tr, decompress_zstd.
-  destruct (zstd_content_size (std_params b) (zstd_declared E f)) as [s|] eqn:Ecs; cbn [fst].
+  destruct (zstd_content_size (std_params K) (zstd_declared E f)) as [s|] eqn:Ecs; cbn [fst].
   - destruct (Hd s eq_refl) as [_ Hone]. exact Hone.
   - rewrite Hs. reflexivity.
 Qed.
 
 Lemma gz_frame_cap : forall E f d cap,
-  gz_frame_of (std_params b) E f d -> 0 <= cap ->
-  decompress (std_params b) E Gzip f (Some cap) = expected d cap.
+  gz_frame_of (std_params K) E f d -> 0 <= cap ->
+  decompress (std_params K) E Gzip f (Some cap) = expected d cap.
 Proof.
   intros E f d cap [Hs [He Hp]] Hc.
   unfold decompress, decompress_tr, decompress_gzip. rewrite Hs, He.
@@ -325,16 +333,16 @@ Proof.
 Qed.
 
 Lemma gz_frame_nocap : forall E f d,
-  gz_frame_of (std_params b) E f d -> decompress (std_params b) E Gzip f None = Ok d.
+  gz_frame_of (std_params K) E f d -> decompress (std_params K) E Gzip f None = Ok d.
 Proof.
   intros E f d [Hs [He Hp]]. unfold decompress, decompress_tr, decompress_gzip. rewrite Hs, He.
   cbn [negb]. rewrite andb_false_r. reflexivity.
 Qed.
 
 (* ---------- compress then decompress ---------- *)
-Lemma roundtrip_cap : forall E, codec_laws (std_params b) E ->
+Lemma roundtrip_cap : forall E, codec_laws (std_params K) E ->
   forall e lvl d cap, e <> Identity -> 0 <= cap ->
-    decompress (std_params b) E e (compress (std_params b) E e d lvl) (Some cap) = expected d cap.
+    decompress (std_params K) E e (compress (std_params K) E e d lvl) (Some cap) = expected d cap.
 Proof.
   intros E [Hz Hg] e lvl d cap Hne Hc. destruct e.
   - exfalso. apply Hne. reflexivity.
@@ -342,8 +350,8 @@ Proof.
   - apply gz_frame_cap; [apply Hg|exact Hc].
 Qed.
 
-Lemma roundtrip_nocap : forall E, codec_laws (std_params b) E ->
-  forall e lvl d, decompress (std_params b) E e (compress (std_params b) E e d lvl) None = Ok d.
+Lemma roundtrip_nocap : forall E, codec_laws (std_params K) E ->
+  forall e lvl d, decompress (std_params K) E e (compress (std_params K) E e d lvl) None = Ok d.
 Proof.
   intros E [Hz Hg] e lvl d. destruct e.
   - reflexivity.
@@ -356,8 +364,8 @@ Lemma identity_passthrough : forall P E d lvl cap,
 Proof. reflexivity. Qed.
 
 Lemma declared_over_cap_refused : forall E f s cap,
-  zstd_content_size (std_params b) (zstd_declared E f) = Some s -> s > cap ->
-  decompress_tr (std_params b) E Zstd f (Some cap) = (LimitErr, []).
+  zstd_content_size (std_params K) (zstd_declared E f) = Some s -> s > cap ->
+  decompress_tr (std_params K) E Zstd f (Some cap) = (LimitErr, []).
 Proof.
   intros E f s cap Hs Hg. unfold decompress_tr, decompress_zstd. rewrite Hs.
   cbn [p_refuse std_params]. destruct (s >? cap) eqn:E1; [reflexivity|lia].
@@ -366,21 +374,21 @@ Qed.
 (* a frame that declares a size within the cap is handed to the one-shot decoder unchanged
    (whether the declaration is honest or not: the library decides) *)
 Lemma declared_within_cap_oneshot : forall E f s cap,
-  zstd_content_size (std_params b) (zstd_declared E f) = Some s -> s <= cap ->
-  decompress_tr (std_params b) E Zstd f (Some cap) = (zstd_oneshot E f, []).
+  zstd_content_size (std_params K) (zstd_declared E f) = Some s -> s <= cap ->
+  decompress_tr (std_params K) E Zstd f (Some cap) = (zstd_oneshot E f, []).
 Proof.
   intros E f s cap Hs Hg. unfold decompress_tr, decompress_zstd. rewrite Hs.
   cbn [p_refuse std_params]. destruct (s >? cap) eqn:E1; [lia|reflexivity].
 Qed.
 
 Lemma requests_bounded : forall E e f cap, 0 <= cap ->
-  Forall (req_ok cap) (snd (decompress_tr (std_params b) E e f (Some cap))).
+  Forall (req_ok cap) (snd (decompress_tr (std_params K) E e f (Some cap))).
 Proof.
   intros E e f cap Hc. destruct e; cbn [decompress_tr snd].
   - constructor.
   - unfold decompress_zstd.
-    destruct (p_refuse (std_params b) _ cap); [constructor|].
-    destruct (zstd_content_size (std_params b) (zstd_declared E f)); [constructor|].
+    destruct (p_refuse (std_params K) _ cap); [constructor|].
+    destruct (zstd_content_size (std_params K) (zstd_declared E f)); [constructor|].
     apply zstd_loop_requests; [lia|constructor].
   - unfold decompress_gzip. apply gz_loop_requests; [lia|constructor].
 Qed.
@@ -396,10 +404,10 @@ Definition toy_env (sized : bool) : env := {|
   gz_comp := fun _ _ d => d;
   gz_stream := fun _ f => f;
   gz_eof := fun _ => true;
-  gz_dec := fun _ _ n rest => (Z.min n (len rest), n <? len rest)
+  gz_dec := fun _ _ n rest => (Z.min n (len rest), n <? len rest, len rest <=? n)
 |}.
 
-Lemma toy_laws : forall sized, codec_laws (std_params b) (toy_env sized).
+Lemma toy_laws : forall sized, codec_laws (std_params K) (toy_env sized).
 Proof.
   intros sized. split; intros l d.
   - split; [reflexivity|]. split.
